@@ -45,7 +45,7 @@ void* threadMain(void* p) { runProgram(*(ThreadCtx*)p); return nullptr; }
 
 void pbt_generate(Rng& r, int size, Case& c) {
   int nt = 2 + (int)r.below(3);
-  c.params["kind"] = (long)r.below(5);
+  c.params["kind"] = (long)r.below(NKIND);
   c.params["threads"] = nt;
   c.params["strategy"] = (long)r.below(4);
   c.params["sched"] = (long)r.below(1000000);
@@ -59,12 +59,12 @@ void pbt_generate(Rng& r, int size, Case& c) {
 bool pbt_nontrivial(const Ctx& ctx) { return ctx.has("interleaved_counter_ops"); }
 
 void pbt_run(const Case& cs, Ctx& ctx) {
-  int kind = (int)(((cs.param("kind", 0) % 5) + 5) % 5), nt = (int)std::max(2L, std::min<long>(MAXT, cs.param("threads", 2)));
+  int kind = (int)(((cs.param("kind", 0) % NKIND) + NKIND) % NKIND), nt = (int)std::max(2L, std::min<long>(MAXT, cs.param("threads", 2)));
   long nsched = ctx.replay ? 60 : std::max(1L, std::min(64L, cs.param("nsched", 8)));
   long share = cs.param("share", 0);
-  static const char* KN[] = {"kind_String", "kind_Variant_string", "kind_Variant_list", "kind_RefCountPtr", "kind_XmlVariant"};
+  static const char* KN[] = {"kind_String", "kind_Variant_string", "kind_Variant_list", "kind_RefCountPtr", "kind_XmlVariant", "kind_RefCountPtr_converting"};
   ctx.label(KN[kind]);
-  if (kind == 3 && ctx.excluded("C09-ptr-swap")) {}
+  if (isPtrKind(kind) && ctx.excluded("C09-ptr-swap")) {}
   std::vector<Prog> progs((size_t)nt);
   for (const Op& op : cs.ops) if (op.name == "op") progs[(size_t)(((op.a[0] % nt) + nt) % nt)].ops.push_back(&op);
   for (long s = 0; s < nsched; ++s) {
